@@ -11,8 +11,13 @@ from lib import solvercheck as SC, solverlib as L
 import translate_solver as ts
 
 THEOREMS = ["Claripy.Props.C12.C12_mro_child", "Claripy.Props.C12.C12_mro_composite", "Claripy.Props.C12.C12_independent_sat",
-            "Claripy.Props.C12.C12_query_component", "Claripy.Props.C12.C12_optimum_component", "Claripy.Props.C12.C12_partial",
-            "Claripy.Solver.models_glue"]
+            "Claripy.Props.C12.C12_query_component", "Claripy.Props.C12.C12_optimum_component", "Claripy.Solver.models_glue",
+            # the bookkeeping of CompositeFrontend (model: Claripy/Solver/Composite.lean): partition invariant, add, satisfiable()
+            "Claripy.Props.C12.C12_children_partition", "Claripy.Props.C12.C12_invariant_init",
+            "Claripy.Props.C12.C12_add_keeps_partition", "Claripy.Props.C12.C12_add_dependent_keeps_partition",
+            "Claripy.Props.C12.C12_satisfiable_correct", "Claripy.Props.C12.C12_child_footprint",
+            "Claripy.Props.C12.C12_composite_partial", "Claripy.Solver.cinv_install", "Claripy.Solver.closure_names",
+            "Claripy.Solver.children_joint_model", "Claripy.Solver.childCheckSat_spec", "Claripy.Solver.cCombineSpec"]
 A = lambda c, s=0: {"s": s, "op": "add", "cs": [c]}  # noqa: E731
 E = lambda e, n, s=0: {"s": s, "op": "eval", "e": e, "n": n, "extra": []}  # noqa: E731
 RULES = {
